@@ -1,0 +1,92 @@
+//! Verification facade for the pure decision logic of `service_daemon.rs`
+//! (cargo feature `verif-hooks`): renaming after a conflict, the name checks, interface
+//! selection.  Thin wrappers over crate-private items; no logic of its own.
+//! This file is a child module of `service_daemon`, so it can call private functions.
+
+use super::*;
+use std::cell::RefCell;
+
+/// `name_change` (instance name after a conflict).
+pub fn name_change(original: &str) -> String {
+    super::name_change(original)
+}
+
+/// `hostname_change` (host name after a conflict).
+pub fn hostname_change(original: &str) -> String {
+    super::hostname_change(original)
+}
+
+pub fn check_service_name_length(ty_domain: &str, limit: u8) -> core::result::Result<(), ()> {
+    super::check_service_name_length(ty_domain, limit).map_err(|_| ())
+}
+
+pub fn check_domain_suffix(name: &str) -> core::result::Result<(), ()> {
+    super::check_domain_suffix(name).map_err(|_| ())
+}
+
+pub fn check_service_name(fullname: &str) -> core::result::Result<(), ()> {
+    super::check_service_name(fullname).map_err(|_| ())
+}
+
+pub fn check_hostname(hostname: &str) -> core::result::Result<(), ()> {
+    super::check_hostname(hostname).map_err(|_| ())
+}
+
+pub fn valid_instance_name(name: &str) -> bool {
+    super::valid_instance_name(name)
+}
+
+/// `IfKind::matches`.
+pub fn if_kind_matches(kind: &IfKind, intf: &Interface) -> bool {
+    kind.matches(intf)
+}
+
+/// `resolve_addr_to_index`: what `enable_interface` / `disable_interface` store for `kind`
+/// when `interfaces` is the interface table at the time of the call.
+pub fn resolve_addr(kind: IfKind, interfaces: &[Interface]) -> IfKind {
+    resolve_addr_to_index(kind, interfaces)
+}
+
+thread_local! {
+    /// `selected_intfs` is a method of `Zeroconf`.  One real `Zeroconf` per thread (its
+    /// sockets are bound to OS-chosen ports and never used) lends its `&self`; only its
+    /// `if_selections` field is replaced before each call.
+    static ZC: RefCell<Option<Zeroconf>> = const { RefCell::new(None) };
+}
+
+fn new_zeroconf() -> Option<Zeroconf> {
+    let signal_sock = UdpSocket::bind(SocketAddrV4::new(LOOPBACK_V4, 0)).ok()?;
+    let signal_addr = signal_sock.local_addr().ok()?;
+    signal_sock.set_nonblocking(true).ok()?;
+    let poller = Poll::new().ok()?;
+    let (cmd_sender, _receiver) = bounded(1);
+    Some(Zeroconf::new(
+        MioUdpSocket::from_std(signal_sock),
+        poller,
+        0,
+        cmd_sender,
+        signal_addr,
+    ))
+}
+
+/// `Zeroconf::selected_intfs` with `if_selections` = `selections` (in call order);
+/// element `i` of the result tells whether `interfaces[i]` is in the returned set.
+/// `None` if no `Zeroconf` could be created in this process.
+pub fn selected(selections: &[(IfKind, bool)], interfaces: Vec<Interface>) -> Option<Vec<bool>> {
+    ZC.with(|cell| {
+        let mut slot = cell.borrow_mut();
+        if slot.is_none() {
+            *slot = new_zeroconf();
+        }
+        let zc = slot.as_mut()?;
+        zc.if_selections = selections
+            .iter()
+            .map(|(if_kind, selected)| IfSelection {
+                if_kind: if_kind.clone(),
+                selected: *selected,
+            })
+            .collect();
+        let set = zc.selected_intfs(interfaces.clone());
+        Some(interfaces.iter().map(|i| set.contains(i)).collect())
+    })
+}
